@@ -4,7 +4,9 @@ open SamVerif.Lexer
 #print axioms union_lub
 #print axioms contains_trans
 #print axioms contains_antisymm
-#print axioms advanceAll_no_newline
-#print axioms wsPos_exact
-#print axioms blockEnd_pos_exact
-#print axioms strEnd_no_newline
+#print axioms encloses_children
+#print axioms prodLoc_exact
+#print axioms pos_tracking_exact
+#print axioms tokens_ordered
+#print axioms name_span_exact
+#print axioms merge_span_exact
